@@ -4,13 +4,23 @@ import A2lVerif.Lemmas.TypedDefs
 # Typed IF_DATA access, part E: the shape of what the interpreter of C18 stores
 
 `Shape sp g`: the generic value `g` is what `parse_ifdata_item` builds for the definition `sp` (read off the code:
-one variant per kind of type; an array has exactly `dim` elements; a struct has line 0 and one item per member; a
-tagged item was parsed with the first member of that tag, has the member's block-ness, and its data is
-`parse_ifdata_make_block` of the member's data with the item's own line). `itemP_shape`: every value that the
+one variant per kind of type; an array has at most `dim` elements (the loop stops after an element that consumed
+nothing) and exactly `dim` when the elements are scalars (they always consume a token); a struct has line 0 and one
+item per member; the tags of the items of a tagged struct are pairwise different except for `( ... )*` members
+(`InvalidMultiplicityTooMany` otherwise); a tagged item was parsed with the first member of that tag, has the
+member's block-ness, and its data is `parse_ifdata_make_block` of the member's data with the item's own line). `itemP_shape`: every value that the
 interpreter returns has the shape of the definition.
 -/
 namespace A2l.Typed
 open A2l.Tree A2l.Aml A2l.IfData
+
+/-- a type whose interpretation always consumes a token: the integer types, `float`, `double`, an enum -/
+def isScalarS : Spec → Bool
+  | .int _ => true
+  | .float => true
+  | .double => true
+  | .enum _ => true
+  | _ => false
 
 mutual
 def Shape : Spec → Gen → Prop
@@ -20,11 +30,12 @@ def Shape : Spec → Gen → Prop
   | .double, g => ∃ off t, g = .double off t
   | .array of dim, g =>
     if isChar of then ∃ off s, g = .str off s
-    else ∃ gs, g = .array gs ∧ gs.length = dim ∧ ∀ x ∈ gs, Shape of x
+    else ∃ gs, g = .array gs ∧ gs.length ≤ dim ∧ (isScalarS of = true → gs.length = dim) ∧ ∀ x ∈ gs, Shape of x
   | .enum items, g => ∃ off s, g = .enumItem off s ∧ (lookupKV items s).isSome = true
   | .struct items, g => ∃ gs, g = .struct 0 gs ∧ ShapeL items gs
   | .seq of, g => ∃ gs, g = .seq gs ∧ ∀ x ∈ gs, Shape of x
-  | .taggedStruct items, g => ∃ its, g = .taggedStruct its ∧ ∀ it ∈ its, ShapeT items it
+  | .taggedStruct items, g =>
+    ∃ its, g = .taggedStruct its ∧ TagsOk (repOf items) (its.map (·.tag)) ∧ ∀ it ∈ its, ShapeT items it
   | .taggedUnion items, g => ∃ its, g = .taggedUnion its ∧ its.length ≤ 1 ∧ ∀ it ∈ its, ShapeT items it
 def ShapeL : List Spec → List Gen → Prop
   | [], gs => gs = []
@@ -46,22 +57,91 @@ def PostD (e : Env) (d : List Char → Option (Bool × (Ctx → PM Gen))) (Q : L
   ∀ tag b p, d tag = some (b, p) → ∀ ctx, Post e (p ctx) (Q tag b)
 
 theorem arrayLoop_post {p : PM Gen} {Q : Gen → Prop} (hp : Post e p Q) :
-    ∀ (n : Nat) (s : PState) (vs : List Gen) (s' : PState), arrayLoop p n e s = .ok vs s' → vs.length = n ∧ ∀ v ∈ vs, Q v
+    ∀ (n : Nat) (s : PState) (vs : List Gen) (s' : PState), arrayLoop p n e s = .ok vs s' → vs.length ≤ n ∧ ∀ v ∈ vs, Q v
   | 0, s, vs, s', h => by
     rw [arrayLoop] at h
     obtain ⟨rfl, rfl⟩ := pure_ok h
-    exact ⟨rfl, by intro v hv; cases hv⟩
+    exact ⟨Nat.le_refl _, by intro v hv; cases hv⟩
   | n + 1, s, vs, s', h => by
     rw [arrayLoop] at h
+    simp only [getTokenpos_bind] at h
     obtain ⟨v, s1, h1, h2⟩ := bind_ok h
-    obtain ⟨vs', s2, h3, h4⟩ := bind_ok h2
-    obtain ⟨rfl, rfl⟩ := pure_ok h4
-    obtain ⟨hl, hq⟩ := arrayLoop_post hp n s1 vs' s2 h3
-    refine ⟨by simp [hl], ?_⟩
-    intro x hx
-    rcases List.mem_cons.1 hx with rfl | hx
-    · exact hp s x s1 h1
-    · exact hq x hx
+    simp only [getTokenpos_bind] at h2
+    split at h2
+    · obtain ⟨rfl, rfl⟩ := pure_ok h2
+      refine ⟨by simp, ?_⟩
+      intro x hx
+      rw [List.mem_singleton] at hx
+      subst hx
+      exact hp s x s1 h1
+    · obtain ⟨vs', s2, h3, h4⟩ := bind_ok h2
+      obtain ⟨rfl, rfl⟩ := pure_ok h4
+      obtain ⟨hl, hq⟩ := arrayLoop_post hp n s1 vs' s2 h3
+      refine ⟨by simp only [List.length_cons]; omega, ?_⟩
+      intro x hx
+      rcases List.mem_cons.1 hx with rfl | hx
+      · exact hp s x s1 h1
+      · exact hq x hx
+
+/-- when every element consumes input, the loop runs `n` times -/
+theorem arrayLoop_full {p : PM Gen} (hc : ∀ s g s', p e s = .ok g s' → s'.pos ≠ s.pos) :
+    ∀ (n : Nat) (s : PState) (vs : List Gen) (s' : PState), arrayLoop p n e s = .ok vs s' → vs.length = n
+  | 0, s, vs, s', h => by
+    rw [arrayLoop] at h
+    obtain ⟨rfl, rfl⟩ := pure_ok h
+    rfl
+  | n + 1, s, vs, s', h => by
+    rw [arrayLoop] at h
+    simp only [getTokenpos_bind] at h
+    obtain ⟨v, s1, h1, h2⟩ := bind_ok h
+    simp only [getTokenpos_bind] at h2
+    split at h2
+    · rename_i hpos
+      exact absurd hpos (hc s v s1 h1)
+    · obtain ⟨vs', s2, h3, h4⟩ := bind_ok h2
+      obtain ⟨rfl, rfl⟩ := pure_ok h4
+      simp [arrayLoop_full hc n s1 vs' s2 h3]
+
+theorem rel_cons_ne {f32 : List Char → Option (List Char)} {s s' : PState} {w : WV} {ws : List WV}
+    (h : Rel e f32 s s' (w :: ws)) : s'.pos ≠ s.pos := by
+  intro he
+  have h3 := h.2.2
+  rw [he, span_self] at h3
+  cases h3
+
+theorem scalar_consumes {α} {f32 : List Char → Option (List Char)} {m : PM α} {g : α → Nat → Gen} {w : α → WV}
+    {s : PState} {r : Gen} {s' : PState} (hm : ∀ v s1, m e s = .ok v s1 → Rel e f32 s s1 [w v])
+    (h : (m >>= fun v => getLineOffset >>= fun off => pure (g v off)) e s = .ok r s') : s'.pos ≠ s.pos := by
+  obtain ⟨v, s1, h1, h2⟩ := bind_ok h
+  obtain ⟨off, h2⟩ := lineOffset_ok h2
+  obtain ⟨rfl, rfl⟩ := pure_ok h2
+  exact rel_cons_ne (hm v s1 h1)
+
+/-- the interpretation of a scalar type consumes a token -/
+theorem itemP_scalar_consumes (f32 : List Char → Option (List Char)) (sp : Spec) (hsc : isScalarS sp = true) (ctx : Ctx)
+    (s : PState) (g : Gen) (s' : PState) (h : itemP f32 sp ctx e s = .ok g s') : s'.pos ≠ s.pos := by
+  cases sp with
+  | int w =>
+    rw [itemP] at h
+    obtain ⟨⟨v, hex⟩, s1, h1, h2⟩ := bind_ok h
+    obtain ⟨off, h2⟩ := lineOffset_ok h2
+    obtain ⟨rfl, rfl⟩ := pure_ok h2
+    exact rel_cons_ne (getInteger_ok f32 h1)
+  | float =>
+    rw [itemP] at h
+    exact scalar_consumes (f32 := f32) (g := fun v off => Gen.float off v) (w := fun v => .f32 v) (fun v s1 h1 => getFloat_ok f32 h1) h
+  | double =>
+    rw [itemP] at h
+    exact scalar_consumes (f32 := f32) (g := fun v off => Gen.double off v) (w := fun v => .f64 v) (fun v s1 h1 => getDouble_ok f32 h1) h
+  | enum items =>
+    rw [itemP] at h
+    obtain ⟨v, s1, h1, h2⟩ := bind_ok h
+    obtain ⟨off, h2⟩ := lineOffset_ok h2
+    split at h2
+    · obtain ⟨rfl, rfl⟩ := pure_ok h2
+      exact rel_cons_ne (getIdentifier_ok f32 h1)
+    · cases h2
+  | _ => simp [isScalarS] at hsc
 
 theorem seqLoop_post {p : PM Gen} {Q : Gen → Prop} (hp : Post e p Q) :
     ∀ (fuel : Nat) (acc : List Gen) (s : PState) (vs : List Gen) (s' : PState), (∀ v ∈ acc, Q v) →
@@ -125,9 +205,9 @@ theorem taggedItem_post {d : List Char → Option (Bool × (Ctx → PM Gen))} {Q
   · exact hreset s2 h4
 
 theorem tsLoop_post {d : List Char → Option (Bool × (Ctx → PM Gen))} {Q : List Char → Bool → Gen → Prop}
-    (hd : PostD e d Q) (ctx : Ctx) : ∀ (fuel : Nat) (acc : List (TItem Gen)) (s : PState) (vs : List (TItem Gen))
-    (s' : PState), (∀ it ∈ acc, ∃ g, it.data = makeBlock g it.line ∧ Q it.tag it.isBlock g) →
-    tsLoop d ctx fuel acc e s = .ok vs s' → ∀ it ∈ vs, ∃ g, it.data = makeBlock g it.line ∧ Q it.tag it.isBlock g
+    (hd : PostD e d Q) (rep : List Char → Bool) (ctx : Ctx) : ∀ (fuel : Nat) (acc : List (TItem Gen)) (s : PState)
+    (vs : List (TItem Gen)) (s' : PState), (∀ it ∈ acc, ∃ g, it.data = makeBlock g it.line ∧ Q it.tag it.isBlock g) →
+    tsLoop d rep ctx fuel acc e s = .ok vs s' → ∀ it ∈ vs, ∃ g, it.data = makeBlock g it.line ∧ Q it.tag it.isBlock g
   | 0, _, _, _, _, _, h => by cases h
   | fuel + 1, acc, s, vs, s', hacc, h => by
     rw [tsLoop] at h
@@ -139,11 +219,13 @@ theorem tsLoop_post {d : List Char → Option (Bool × (Ctx → PM Gen))} {Q : L
       exact hacc it (List.mem_reverse.1 hit)
     | some it =>
       dsimp only at h2
-      refine tsLoop_post hd ctx fuel (it :: acc) s1 vs s' ?_ h2
-      intro x hx
-      rcases List.mem_cons.1 hx with rfl | hx
-      · exact taggedItem_post hd h1
-      · exact hacc x hx
+      split at h2
+      · cases h2
+      · refine tsLoop_post hd rep ctx fuel (it :: acc) s1 vs s' ?_ h2
+        intro x hx
+        rcases List.mem_cons.1 hx with rfl | hx
+        · exact taggedItem_post hd h1
+        · exact hacc x hx
 
 /-- the postcondition of the parser that `dispatch` returns for a tag -/
 def QT (items : List (Tagged Spec)) (tag : List Char) (b : Bool) (g : Gen) : Prop :=
@@ -197,6 +279,8 @@ theorem itemP_shape (f32 : List Char → Option (List Char)) : ∀ (sp : Spec) (
       obtain ⟨vs, s1, h1, h2⟩ := bind_ok h
       obtain ⟨rfl, rfl⟩ := pure_ok h2
       obtain ⟨hl, hq⟩ := arrayLoop_post (itemP_shape f32 of ctx) dim s vs s1 h1
+      have hfull : isScalarS of = true → vs.length = dim := fun hsc =>
+        arrayLoop_full (fun s0 g0 s0' h0 => itemP_scalar_consumes f32 of hsc ctx s0 g0 s0' h0) dim s vs s1 h1
       rw [Shape]
       have hc : isChar of = false := by
         cases of <;> try rfl
@@ -205,7 +289,7 @@ theorem itemP_shape (f32 : List Char → Option (List Char)) : ∀ (sp : Spec) (
         | zero => exact absurd rfl (hne)
         | succ n => rfl
       simp only [hc, Bool.false_eq_true, if_false]
-      exact ⟨vs, rfl, hl, hq⟩
+      exact ⟨vs, rfl, hl, hfull, hq⟩
   | .enum items, ctx => by
     intro s g s' h
     rw [itemP] at h
@@ -239,9 +323,9 @@ theorem itemP_shape (f32 : List Char → Option (List Char)) : ∀ (sp : Spec) (
     obtain ⟨vs, s1, h1, h2⟩ := bind_ok h
     obtain ⟨rfl, rfl⟩ := pure_ok h2
     rw [Shape]
-    refine ⟨vs, rfl, ?_⟩
+    refine ⟨vs, rfl, tsLoop_tagsOk _ ctx _ [] s vs s1 h1 List.Pairwise.nil, ?_⟩
     intro it hit
-    obtain ⟨g, hg, hq⟩ := tsLoop_post (dispatch_shape f32 items) ctx _ [] s vs s1 (by intro v hv; cases hv) h1 it hit
+    obtain ⟨g, hg, hq⟩ := tsLoop_post (dispatch_shape f32 items) _ ctx _ [] s vs s1 (by intro v hv; cases hv) h1 it hit
     exact hq it rfl rfl hg
   | .taggedUnion items, ctx => by
     intro s g s' h
